@@ -57,13 +57,31 @@ for _n, _b in (('VfA', Exception), ('VfB', Exception), ('VfC', LookupError),
 
 # an application's own hierarchy whose class names are also names of
 # builtin / zExceptions exceptions (as requests, redis ... define them)
-_svc = type('ServiceError', (Exception,), {})
-_con = type('ConnectionError', (_svc,), {})
-EXC['user:ServiceError'] = _svc
-EXC['user:ConnectionError'] = _con
-EXC['user:TimeoutError'] = type('TimeoutError', (_con,), {})
-EXC['user:NotFound'] = type('NotFound', (_svc,), {})
-EXC['user:KeyError'] = type('KeyError', (_svc,), {})
+# ... written with class statements inside a function and inside a class
+# body, as applications do (a client factory, a namespace class): the name
+# of such a class is its __name__, not its qualified name
+def _application_errors():
+    class ServiceError(Exception):
+        pass
+
+    class ConnectionError(ServiceError):
+        pass
+
+    class TimeoutError(ConnectionError):
+        pass
+
+    class Errors:
+        class NotFound(ServiceError):
+            pass
+
+        class KeyError(ServiceError):
+            pass
+    return (ServiceError, ConnectionError, TimeoutError, Errors.NotFound,
+            Errors.KeyError)
+
+
+for _c in _application_errors():
+    EXC['user:' + _c.__name__] = _c
 
 
 class Injected(Exception):
